@@ -94,6 +94,17 @@ func drawXZCase(t *rapid.T) caseXZ {
 			c.Data = gen.Recipe{rnd(1, 3000), txt(), rnd(1, 3000), txt()}
 		}
 	}
+	if ev.Thorough() && c.Cfg.DictCap == 0 && rapid.IntRange(0, 3).Draw(t, "wrapdefault") == 0 {
+		// more data than the default 8 MiB dictionary plus look-ahead holds:
+		// the encoder's ring buffer wraps with the default configuration
+		c.Cfg.BlockSize = 0
+		c.Data = gen.Recipe{
+			{Kind: "text", K: 26, Len: rapid.IntRange(3<<20, 4<<20).Draw(t, "w1"), Seed: rapid.Uint64().Draw(t, "ws1")},
+			{Kind: "random", Len: rapid.IntRange(100000, 300000).Draw(t, "w2"), Seed: rapid.Uint64().Draw(t, "ws2")},
+			{Kind: "copyback", Len: rapid.IntRange(5<<20, 6<<20).Draw(t, "w3"), Dist: rapid.IntRange(1<<20, 3<<20).Draw(t, "wd")},
+			{Kind: "text", K: 4, Len: rapid.IntRange(1000, 100000).Draw(t, "w4"), Seed: rapid.Uint64().Draw(t, "ws4")},
+		}
+	}
 	if c.Cfg.Matcher == 1 {
 		c.Data = clampForBT(c.Data, 12000)
 	}
